@@ -347,6 +347,20 @@ def judge_fn(ctx, job, res, resps):
                 ctx.hist["struct:differs"] = ctx.hist.get("struct:differs", 0) + 1
                 if len(ctx.extra_cov.setdefault("struct_differs_samples", [])) < 3:
                     ctx.extra_cov["struct_differs_samples"].append({"src": res["src"], "rename": ren, "real": ob["srepr"], "model": ms})
+        # the entry points the theorems are stated over (trBody / trLoop / trExpr / trArgs), run directly by the driver:
+        # they must give what `fnToSympy` gives (and that is what was just compared with the real result)
+        ent = resp.get("entry")
+        if ren is None and ent is not None and "ok" in resp["tr"] and not ent["other_params"]:
+            for k in ("body", "loop", "expr"):
+                if ent[k] is None:
+                    continue
+                ctx.hist["entry:" + k] = ctx.hist.get("entry:" + k, 0) + 1
+                if ent[k] != resp["tr"]:
+                    ctx.add_drift(case, resp["tr"], ent[k], f"Lean {k} entry point differs from fnToSympy")
+            if ent["args"] is not None:
+                ctx.hist["entry:args"] = ctx.hist.get("entry:args", 0) + 1
+                if "ok" not in ent["args"]:
+                    ctx.add_drift(case, resp["tr"], ent["args"], "a call was translated although its arguments are not")
         # the Lean Python semantics against CPython
         if ren is None:
             for i, (a, b) in enumerate(zip(resp["py"], py)):
